@@ -110,7 +110,7 @@ _add(
         "combined resolver and (if malformed) is_valid_expression. Oracle: three-valued hand-written recogniser (accept / reject / unspecified) "
         "and an exception-type monitor (only SyntaxError may escape). distinct non-trivial = distinct strings not rejected at the first character"
     ),
-    deciding={"any": {"strings": 2000, "condition-parser:accepted:ACCEPT": 200, "condition-parser:rejected:REJECT": 500, "resolver:accepted:ACCEPT": 300, "resolver:rejected:REJECT": 500, "is_valid_expression_on_malformed": 300}},
+    deciding={"any": {"strings": 2000, "condition-parser:accepted:ACCEPT": 200, "condition-parser:rejected:REJECT": 500, "resolver:accepted:ACCEPT": 300, "resolver:rejected:REJECT": 500, "is_valid_expression_on_malformed": 300, "package_failure_sequences": 30}},
     headline=["strings", "nontrivial_strings", "is_valid_expression_on_malformed"],
 )
 
@@ -159,7 +159,7 @@ _add(
         "evaluate_ahb_expression_tree with harness evaluators and through is_valid_expression with the ContentEvaluationResult based evaluators "
         "and a ContextVar setter. Oracle: the structural predicate of the property statement. distinct non-trivial = distinct expression strings"
     ),
-    deciding={"any": {"invalid_expressions": 200, "valid_expressions": 200, "invalid:hint-with-fc": 20, "invalid:neutral-with-rc": 100, "ahb_invalid": 15, "ahb_valid": 15, "is_valid_expression_calls": 30, "neutral_only_expressions": 100}},
+    deciding={"any": {"invalid_expressions": 200, "valid_expressions": 200, "invalid:hint-with-fc": 20, "invalid:neutral-with-rc": 100, "ahb_invalid": 15, "ahb_valid": 15, "is_valid_expression_calls": 30, "neutral_only_expressions": 100, "failed_evaluations_in_between": 50}},
     headline=["valid_expressions", "invalid_expressions", "ahb_valid", "ahb_invalid", "is_valid_expression_calls"],
 )
 
@@ -278,7 +278,7 @@ _add(
         "NotImplementedError iff a visited MUSS/prefix node is UNKNOWN; validate_segment_level on a random sub-tree. distinct non-trivial = "
         "distinct (tree, assignment, flag) with depth >= 3 or pruning"
     ),
-    deciding={"any": {"trees": 100, "nodes_reported": 1500, "trees_with_pruning": 30, "runs_expecting_not_implemented": 3, "segment_level_calls": 50, "runs_with_concurrently_parked_awaitables": 50, "sequence_runs": 50, "runs_with_shipped_evaluators": 30}},
+    deciding={"any": {"trees": 100, "nodes_reported": 1500, "trees_with_pruning": 30, "runs_expecting_not_implemented": 3, "segment_level_calls": 50, "runs_with_concurrently_parked_awaitables": 50, "sequence_runs": 50, "runs_with_shipped_evaluators": 30, "trees_with_line_indexes": 50}},
     headline=["trees", "nodes_reported", "nodes_pruned", "runs_expecting_not_implemented", "segment_level_calls"],
 )
 
